@@ -81,16 +81,21 @@ impl Source for MioListener {
         match *self {
             MioListener::Tcp(ref mut lst) => lst.deregister(registry),
             #[cfg(unix)]
-            MioListener::Uds(ref mut lst) => {
-                let res = lst.deregister(registry);
+            MioListener::Uds(ref mut lst) => lst.deregister(registry),
+        }
+    }
+}
 
-                // cleanup file path
-                if let Ok(addr) = lst.local_addr() {
-                    if let Some(path) = addr.as_pathname() {
-                        let _ = std::fs::remove_file(path);
-                    }
+#[cfg(unix)]
+impl Drop for MioListener {
+    fn drop(&mut self) {
+        // cleanup file path once the listener is gone for good. Deregistration is temporary (pause,
+        // accept error back-off): the socket keeps listening and must stay reachable by its path.
+        if let MioListener::Uds(ref lst) = *self {
+            if let Ok(addr) = lst.local_addr() {
+                if let Some(path) = addr.as_pathname() {
+                    let _ = std::fs::remove_file(path);
                 }
-                res
             }
         }
     }
